@@ -169,39 +169,40 @@ def opaque(value):
 
 def shape(value):
     """Python property value -> ('kw', s) | ('dim', Fraction, unit) | ('num', Fraction) | ('strs', [..])
-    | ('tag', s, Fraction); values of any other shape become an opaque keyword."""
+    | ('tag', s, Fraction) | ('null',) | ('tup', [shape, ...]); a leaf of any other shape becomes an opaque keyword."""
     from weasyprint.css.properties import Dimension
 
     def number(x):
         return (isinstance(x, (int, float, Fraction)) and not isinstance(x, bool) and x == x and
                 abs(x) != float('inf'))
+    if value is None:
+        return ('null',)
     if isinstance(value, str):
         return ('kw', value) if value == '' or _atom_ok(value) else ('kw', opaque(value))
-    if isinstance(value, Dimension) and number(value.value) and \
-            (value.unit is None or (isinstance(value.unit, str) and _atom_ok(value.unit))):
-        return ('dim', Fraction(value.value), value.unit or 'none')
+    if isinstance(value, Dimension):
+        if number(value.value) and (value.unit is None or (isinstance(value.unit, str) and _atom_ok(value.unit))):
+            return ('dim', Fraction(value.value), value.unit or 'none')
+        return ('kw', opaque(value))
     if number(value):
         return ('num', Fraction(value))
-    if isinstance(value, (tuple, list)) and not isinstance(value, Dimension) and \
-            all(isinstance(v, str) and _atom_ok(v) for v in value):
-        if len(value) == 0 or not isinstance(value, list):
-            return ('strs', list(value))
+    if isinstance(value, (tuple, list)) and all(isinstance(v, str) and _atom_ok(v) for v in value):
+        return ('strs', list(value))
     if isinstance(value, (set, frozenset)) and all(isinstance(v, str) and _atom_ok(v) for v in value):
         return ('strs', sorted(value))
     if isinstance(value, tuple) and len(value) == 2 and isinstance(value[0], str) and _atom_ok(value[0]) \
             and value[0].isupper() and number(value[1]):
         return ('tag', value[0], Fraction(value[1]))
+    if isinstance(value, (tuple, list)):       # lists (content lists, token lists) iterate like tuples
+        return ('tup', [shape(v) for v in value])
     return ('kw', opaque(value))
 
 
 def _atom_ok(s):
     """Usable as a wire atom (parentheses are written `[` `]` on the wire) and inside the canonical renderings."""
-    return bool(s) and not any(c in s for c in ' []\n\t\r;=@:,')
+    return bool(s) and not any(c in s for c in ' []\n\t\r;=@:,|')
 
 
-def encode_value(value):
-    """A Python property value -> Lean `Val` term."""
-    sh = shape(value)
+def lean_shape(sh):
     if sh[0] == 'kw':
         return f'.kw {lean_str(sh[1])}'
     if sh[0] == 'dim':
@@ -210,7 +211,16 @@ def encode_value(value):
         return f'.num {lean_q(sh[1])}'
     if sh[0] == 'strs':
         return f'.strs {lean_list([lean_str(v) for v in sh[1]])}'
+    if sh[0] == 'null':
+        return '.null'
+    if sh[0] == 'tup':
+        return f'.tup {lean_list([lean_shape(x) for x in sh[1]])}'
     return f'.tagged {lean_str(sh[1])} {lean_q(sh[2])}'
+
+
+def encode_value(value):
+    """A Python property value -> Lean `Val` term."""
+    return lean_shape(shape(value))
 
 
 def generate():
